@@ -250,7 +250,13 @@ func c17Algebra(c *Ctx) {
 		c.Step("static Flip(A,%d,%d)", s, e)
 		h0 := storageHash64(A.B)
 		var res *roaring64.Bitmap
-		if c.Guard("64/Flip/static", func() { res = roaring64.Flip(A.B, s, e) }) {
+		if c.Guard("64/Flip/static", func() {
+			if e <= 1<<62 && r.Chance(0.3) {
+				res = roaring64.FlipInt(A.B, int(s), int(e))
+			} else {
+				res = roaring64.Flip(A.B, s, e)
+			}
+		}) {
 			return
 		}
 		want := ma.Clone()
@@ -335,6 +341,9 @@ func c17Queries(c *Ctx) {
 		for _, x := range args {
 			if b.Contains(x) != m.Contains(x) {
 				c.Fail("64/query/Contains", "Contains(%d)=%v", x, b.Contains(x))
+			}
+			if x <= 1<<63-1 && b.ContainsInt(int(x)) != m.Contains(x) {
+				c.Fail("64/query/ContainsInt", "ContainsInt(%d)=%v", x, b.ContainsInt(int(x)))
 			}
 			if g, w := b.Rank(x), m.Rank(x); g != w {
 				c.Fail("64/query/Rank", "Rank(%d)=%d want %d (set %s)", x, g, w, m)
